@@ -685,3 +685,108 @@ example : classDictKids (V := Int) [("a", .prior 7), ("b", .prior 3)] = [] := by
 #guard placeName ["galaxies", "0"] == "galaxies" && placeName ["0"] == "0" && placeName ["g", "pos", "pos_0"] == "pos_0"
 
 end AF.C12
+
+
+/-! ## the result route without a run-time condition: distinct paths suffice -/
+
+namespace AF.C12
+open AF AF.PassRoutesL
+
+variable {V V' : Type}
+
+theorem filterMap_eq_map_of_some {α β} (f : α → Option β) (g : α → β) : ∀ (l : List α),
+    (∀ a ∈ l, f a = some (g a)) → l.filterMap f = l.map g
+  | [], _ => rfl
+  | a :: l, h => by
+    have ha := h a (by simp)
+    simp only [List.filterMap_cons, ha, List.map_cons]
+    rw [filterMap_eq_map_of_some f g l (fun b hb => h b (List.mem_cons_of_mem _ hb))]
+
+theorem eq_of_nodup_fst {α β} : ∀ (w : List (α × β)), (w.map (·.1)).Nodup →
+    ∀ a ∈ w, ∀ b ∈ w, a.1 = b.1 → a = b
+  | [], _, a, ha, _, _, _ => by simp at ha
+  | y :: ys, hn, a, ha, b, hb, hab => by
+    simp only [List.map_cons, List.nodup_cons] at hn
+    rcases List.mem_cons.mp ha with rfl | ha' <;> rcases List.mem_cons.mp hb with rfl | hb'
+    · rfl
+    · exact absurd (List.mem_map.mpr ⟨b, hb', hab.symm⟩ : a.1 ∈ ys.map (·.1)) hn.1
+    · exact absurd (List.mem_map.mpr ⟨a, ha', hab⟩ : b.1 ∈ ys.map (·.1)) hn.1
+    · exact eq_of_nodup_fst ys hn.2 a ha' b hb' hab
+
+theorem nodup_getElem_inj {α} (l : List α) (hn : l.Nodup) (i j : Nat) (hi : i < l.length) (hj : j < l.length)
+    (h : l[i] = l[j]) : i = j := by
+  unfold List.Nodup at hn
+  rw [List.pairwise_iff_getElem] at hn
+  by_contra hne
+  rcases Nat.lt_or_gt_of_ne hne with hlt | hgt
+  · exact hn i j hi hj hlt h
+  · exact hn j i hj hi hgt h.symm
+
+theorem lastPlace_some_mem (w : List (Path × Nat)) (id : Nat) (h : ∃ p, (p, id) ∈ w) :
+    ∃ p, lastPlace w id = some p ∧ (p, id) ∈ w := by
+  unfold lastPlace
+  cases hf : w.reverse.find? (·.2 == id) with
+  | none =>
+    obtain ⟨p, hp⟩ := h
+    have := List.find?_eq_none.mp hf (p, id) (List.mem_reverse.mpr hp)
+    simp at this
+  | some e =>
+    have hm : e ∈ w := List.mem_reverse.mp (List.mem_of_find?_eq_some hf)
+    have he : e.2 = id := by simpa using List.find?_some hf
+    exact ⟨e.1, rfl, by rw [← he]; exact hm⟩
+
+theorem mem_placesOf (w : List (Path × Nat)) (id : Nat) (p : Path) : p ∈ placesOf w id ↔ (p, id) ∈ w := by
+  simp only [placesOf, List.mem_map, List.mem_filter]
+  constructor
+  · rintro ⟨e, ⟨he, hid⟩, rfl⟩
+    have : e.2 = id := by simpa using hid
+    rw [← this]; exact he
+  · intro h
+    exact ⟨(p, id), ⟨h, by simp⟩, rfl⟩
+
+/-- **`Result.model` & co. hand prior passing the inferred vector itself, in parameter order, for
+every composition in which no two places have the same path** (true of every Python object tree:
+attribute names and collection keys are dictionary keys). -/
+theorem result_vector_roundtrip_distinct_paths (t : Node V') (v : List V) (hv : v.length = count t)
+    (hpaths : ((walk t).map (·.1)).Nodup) :
+    resultVector t v = v.map some := by
+  -- every parameter has a last place, and it is one of its places
+  have hperm := perm_sortById (walk t)
+  have hocc : ∀ id ∈ uniqueIds t, ∃ p, (p, id) ∈ pathPriors t := by
+    intro id hid
+    obtain ⟨e, he, rfl⟩ := List.mem_map.mp (mem_sortDedup.mp hid)
+    exact ⟨e.1, hperm.mem_iff.mpr he⟩
+  have hnd : (uniqueIds t).Nodup := nodup_of_sorted (sorted_sortDedup _)
+  have hpp : ((pathPriors t).map (·.1)).Nodup := (hperm.map _).nodup_iff.mpr hpaths
+  let g : Nat → Path := fun id => (lastPlace (pathPriors t) id).getD []
+  have hg : ∀ id ∈ uniqueIds t, lastPlace (pathPriors t) id = some (g id) ∧ (g id, id) ∈ pathPriors t := by
+    intro id hid
+    obtain ⟨p, hp, hm⟩ := lastPlace_some_mem (pathPriors t) id (hocc id hid)
+    simp only [g, hp, Option.getD_some]
+    exact ⟨trivial, hm⟩
+  have hkeys : uniquePaths t = (uniqueIds t).map g :=
+    filterMap_eq_map_of_some _ g _ (fun id hid => (hg id hid).1)
+  unfold resultVector kwargsOfVector
+  rw [hkeys]
+  have hlen : ((uniqueIds t).map g).length = (allPaths t).length := by simp [allPaths]
+  refine vectorOfKwargs_own _ _ v hlen (by simp [hv, count]) ?_ ?_
+  · intro i hi
+    have hi' : i < (uniqueIds t).length := by simpa using hi
+    simp only [allPaths, List.getElem_map]
+    exact (mem_placesOf _ _ _).mpr (hg _ (List.getElem_mem hi')).2
+  · intro i j hi hj hne hmem
+    have hi' : i < (uniqueIds t).length := by simpa using hi
+    have hj' : j < (uniqueIds t).length := by simpa [allPaths] using hj
+    simp only [allPaths, List.getElem_map] at hmem
+    have h1 := (hg _ (List.getElem_mem hi')).2
+    have h2 := (mem_placesOf _ _ _).mp hmem
+    -- two entries with the same path are the same entry
+    have : ((uniqueIds t)[i]'hi') = ((uniqueIds t)[j]'hj') := by
+      have hinj := eq_of_nodup_fst _ hpp _ h1 _ h2 rfl
+      exact (Prod.mk.inj hinj).2
+    exact hne (nodup_getElem_inj _ hnd i j hi' hj' this)
+
+/-- non-vacuity: the places of `t₀` (a shared parameter among them) have distinct paths -/
+example : ((walk t₀).map (·.1)).Nodup := by decide
+
+end AF.C12
